@@ -25,8 +25,16 @@ import (
 
 type engine struct{}
 
+//go:norace
 func (engine) Name() string { return "metricsim" }
 
+// RaceProps: a quarter of the workers run the race-detector build of this engine (DESIGN.md §2.11); a data
+// race between two accesses of the code under test is reported under these properties.
+//
+//go:norace
+func (engine) RaceProps() []string { return []string{"C02"} }
+
+//go:norace
 func TestWorker(t *testing.T) { simdrv.Worker(t, engine{}) }
 
 const overflowKey = "otel.metric.overflow=true"
@@ -46,14 +54,25 @@ const (
 	kObsUpDown
 	kObsGauge
 	kObsCounterF // float64 observable counter whose callback is given at creation (WithFloat64Callback)
+	// int64 counter of a second instrumentation scope that nobody creates up front: every recorder task
+	// requests the scope's meter and the instrument when it first needs them and keeps its own handle, so
+	// that first-time creation of one instrument (and of one meter) happens concurrently and the pipelines
+	// hold two scopes (after seeded changes C02-i and C12-i)
+	kCounterLate
 )
 
+//go:norace
 func (k instKind) String() string {
-	return [...]string{"counter_i", "counter_f", "updown_i", "hist_i", "gauge_i", "hist_exp", "obs_counter", "obs_updown", "obs_gauge", "obs_counter_f"}[k]
+	return [...]string{"counter_i", "counter_f", "updown_i", "hist_i", "gauge_i", "hist_exp", "obs_counter", "obs_updown", "obs_gauge", "obs_counter_f", "counter_late"}[k]
 }
 
-func (k instKind) isSum() bool   { return k == kCounterI || k == kCounterF || k == kUpDownI }
-func (k instKind) isAsync() bool { return k >= kObsCounter }
+//go:norace
+func (k instKind) isSum() bool {
+	return k == kCounterI || k == kCounterF || k == kUpDownI || k == kCounterLate
+}
+
+//go:norace
+func (k instKind) isAsync() bool { return k >= kObsCounter && k <= kObsCounterF }
 
 // stream is what one view makes of an instrument.
 type stream struct {
@@ -72,10 +91,13 @@ type inst struct {
 }
 
 // sumLike: the instrument's streams are sums whose values decode to sets of measurements.
+//
+//go:norace
 func (in *inst) sumLike() bool { return in.kind.isSum() || in.asSum }
 
 type attrSet struct{ a, b int } // a in -1..2 (-1: absent), b in -1..1
 
+//go:norace
 func (s attrSet) kvs() []attribute.KeyValue {
 	var out []attribute.KeyValue
 	if s.a >= 0 {
@@ -87,6 +109,7 @@ func (s attrSet) kvs() []attribute.KeyValue {
 	return out
 }
 
+//go:norace
 func (s attrSet) key(keep []string) string {
 	var parts []string
 	has := func(k string) bool {
@@ -109,6 +132,7 @@ func (s attrSet) key(keep []string) string {
 	return strings.Join(parts, ",")
 }
 
+//go:norace
 func setKeyOf(set attribute.Set) string {
 	var parts []string
 	it := set.Iter()
@@ -134,6 +158,7 @@ type recOp struct {
 	sleep    time.Duration
 }
 
+//go:norace
 func (o *recOp) value() int64 {
 	if o.zero {
 		return 0
@@ -189,29 +214,29 @@ type world struct {
 	r   *simdrv.Run
 	sim *simrt.Sim
 
-	insts    []*inst
-	recs     []*recOp
-	zeros    []*recOp // zero-valued measurements on sum instruments
+	insts []*inst
+	recs  []*recOp
+	zeros []*recOp // zero-valued measurements on sum instruments
 	// periodic reader: configured export timeout; (simulated) instant at which the previous export ended
 	perTimeout time.Duration
 	perLastEnd time.Time
-	colls    []*collection
-	nColl    map[string]int
-	limit    int
-	faulty   bool
-	delays   []time.Duration
-	gate     sync.RWMutex // harness gate: measurements hold it shared, a joint collection exclusively
-	cycle    int          // joint point counter (async callback values depend on it)
-	jointN   int
-	curColl  map[string]*collection // collecting task -> its collection record
-	regs     map[int]bool           // async instrument -> callback currently registered
-	regHist  []regEv
-	perLast  uint64 // stamp of the previous periodic export begin (or reader creation)
-	perCur   *collection
-	perTemp  metricdata.Temporality
-	ops      []*simdrv.OpCall
-	bounds   []float64
-	interval time.Duration
+	colls      []*collection
+	nColl      map[string]int
+	limit      int
+	faulty     bool
+	delays     []time.Duration
+	gate       sync.RWMutex // harness gate: measurements hold it shared, a joint collection exclusively
+	cycle      int          // joint point counter (async callback values depend on it)
+	jointN     int
+	curColl    map[string]*collection // collecting task -> its collection record
+	regs       map[int]bool           // async instrument -> callback currently registered
+	regHist    []regEv
+	perLast    uint64 // stamp of the previous periodic export begin (or reader creation)
+	perCur     *collection
+	perTemp    metricdata.Temporality
+	ops        []*simdrv.OpCall
+	bounds     []float64
+	interval   time.Duration
 }
 
 type regEv struct {
@@ -224,10 +249,15 @@ type regEv struct {
 
 type exporter struct{ w *world }
 
+//go:norace
 func (x *exporter) Temporality(sdkmetric.InstrumentKind) metricdata.Temporality { return x.w.perTemp }
+
+//go:norace
 func (x *exporter) Aggregation(k sdkmetric.InstrumentKind) sdkmetric.Aggregation {
 	return sdkmetric.DefaultAggregationSelector(k)
 }
+
+//go:norace
 func (x *exporter) Export(ctx context.Context, rm *metricdata.ResourceMetrics) error {
 	w := x.w
 	c := &collection{reader: "P", inv: w.perLast, ret: w.sim.Stamp(), how: "export", data: extract(rm), cycle: w.cycle}
@@ -252,7 +282,11 @@ func (x *exporter) Export(ctx context.Context, rm *metricdata.ResourceMetrics) e
 	defer func() { w.perLastEnd = time.Now() }()
 	return w.r.Behave(ctx, "metric-export", w.faulty, w.delays)
 }
+
+//go:norace
 func (x *exporter) ForceFlush(context.Context) error { return nil }
+
+//go:norace
 func (x *exporter) Shutdown(ctx context.Context) error {
 	x.w.r.Log("%d exporter-shutdown", x.w.sim.Stamp())
 	return nil
@@ -260,6 +294,7 @@ func (x *exporter) Shutdown(ctx context.Context) error {
 
 // ---------- extraction ----------
 
+//go:norace
 func extract(rm *metricdata.ResourceMetrics) map[string]map[string]point {
 	out := map[string]map[string]point{}
 	for _, sm := range rm.ScopeMetrics {
@@ -322,6 +357,7 @@ func extract(rm *metricdata.ResourceMetrics) map[string]map[string]point {
 	return out
 }
 
+//go:norace
 func summarize(d map[string]map[string]point) string {
 	var names []string
 	for n := range d {
@@ -353,6 +389,8 @@ func summarize(d map[string]map[string]point) string {
 
 // asyncValue is the value an async instrument observes for a set in a given cycle, and whether it
 // observes the set at all in that cycle (sets appear and disappear).
+//
+//go:norace
 func asyncValue(in *inst, s attrSet, cycle int) (int64, bool) {
 	h := (in.idx*31 + s.a*7 + s.b*3 + cycle*5) % 4
 	if h == 0 {
@@ -372,6 +410,7 @@ var asyncSets = []attrSet{{0, -1}, {1, -1}, {2, 0}}
 
 // ---------- engine body ----------
 
+//go:norace
 func (engine) Body(r *simdrv.Run) {
 	w := &world{r: r, nColl: map[string]int{}, curColl: map[string]*collection{}, regs: map[int]bool{}}
 	times := []time.Duration{time.Millisecond, 10 * time.Millisecond, time.Second, 5 * time.Second}
@@ -397,7 +436,7 @@ func (engine) Body(r *simdrv.Run) {
 	w.bounds = []float64{1, 4, 16, 256, 65536}
 
 	// instruments
-	kinds := []instKind{kCounterI, kCounterF, kUpDownI, kHistI, kGaugeI, kHistExpF, kObsCounter, kObsUpDown, kObsGauge, kObsCounterF}
+	kinds := []instKind{kCounterI, kCounterF, kUpDownI, kHistI, kGaugeI, kHistExpF, kObsCounter, kObsUpDown, kObsGauge, kObsCounterF, kCounterLate}
 	expMaxSize := []int32{4, 4, 8, 160}[r.Cfg(4)]
 	expMaxScale := []int32{0, 3, 20}[r.Cfg(3)]
 	for i, k := range kinds {
@@ -428,6 +467,9 @@ func (engine) Body(r *simdrv.Run) {
 		w.insts = append(w.insts, in)
 	}
 	syncInsts := []int{0, 1, 2, 3, 4, 5, 5}
+	if r.Cfg(2) == 1 {
+		syncInsts = []int{0, 1, 2, 3, 4, 5, 5, 10, 10, 10}
+	}
 	// recorder plans
 	nRec := 1 + r.Cfg(4)
 	recPlans := make([][]*recOp, nRec)
@@ -675,6 +717,7 @@ func (engine) Body(r *simdrv.Run) {
 		}
 	}
 
+	lateHandles := map[string]metric.Int64Counter{}
 	record := func(op *recOp) {
 		ctx := context.Background()
 		attrs := metric.WithAttributes(op.set.kvs()...)
@@ -686,6 +729,14 @@ func (engine) Body(r *simdrv.Run) {
 			r.Fault("instrument-requested-again")
 		}
 		switch w.insts[op.inst].kind {
+		case kCounterLate:
+			h := lateHandles[op.task]
+			if h == nil || again {
+				r.Fault("late-instrument-requested")
+				h, _ = mp.Meter("metricsim/late").Int64Counter("counter_late")
+				lateHandles[op.task] = h
+			}
+			h.Add(ctx, op.value(), attrs)
 		case kCounterI:
 			h := ci
 			if again {
